@@ -184,6 +184,8 @@ class SessRun(Run):
         o = self.outer_of(inner)
         c = next((d for d, oo in self.conn_of.items() if oo is o), 0)
         if o is not None:
+            if ok and getattr(self, 'ended_by_peer', None):
+                self.ended_by_peer.discard(self.cid(o))       # (the object is connected anew: a live connection again)
             self.log(e='connect', c=c, x=self.cid(o), ok=ok)
 
     def on_close(self, inner):
@@ -276,7 +278,12 @@ class SessRun(Run):
         elif k == 'kill':
             self.n_kill += 1
             o = self.conn_ids[e[1]]
-            o._active_connection.reader.feed_eof()
+            # every other idle connection is ended with a reset (RST) instead of an orderly close (FIN)
+            self.ended_by_peer = getattr(self, 'ended_by_peer', set()) | {e[1]}
+            if e[1] % 2 == 0 and getattr(o._active_connection.reader, '_ep', None) is not None:
+                o._active_connection.reader._ep.reset_now()
+            else:
+                o._active_connection.reader.feed_eof()
             self.log(e='kill', x=e[1])
         elif k == 'cancel':
             self.n_cancel += 1
